@@ -86,6 +86,8 @@ def build(op, model, rng, dtype, atom):
                 items.append(x)
                 calls.append(('app', x))
 
+        read_inside = rng.random() < 0.5
+
         def do(D, ra, p):
             with ra.open_arrays():
                 for kind, arg in calls:
@@ -93,7 +95,14 @@ def build(op, model, rng, dtype, atom):
                         ra.iterappend(c for c in arg)
                     else:
                         ra.append(arg)
+                    if read_inside:     # what the handle shows inside its own open context
+                        last = arg[-1] if kind == 'iter' else arg
+                        try:
+                            do.inside.append((np.asarray(ra[len(ra) - 1]), last))
+                        except Exception as e:
+                            do.inside.append((e, last))
             return ra
+        do.inside = []
         return model + items, do
     if op == 'iter2':
         x, y = item(rng, dtype, atom, 2), item(rng, dtype, atom, 0)
@@ -374,6 +383,14 @@ def run(env, res, case, monitors):
                     new = do(D, ra, apipath)
                 except Exception as e:
                     raised = e
+                if 'model' in monitors and getattr(do, 'inside', None):
+                    for got, want in do.inside:
+                        res.count('mon.read_inside_context')
+                        if isinstance(got, Exception) or not bits_equal(got, want):
+                            res.fail('model:inside-context-read',
+                                     f'step {i} {op}: inside open_arrays(), the last subarray reads as '
+                                     f'{describe(got) if not isinstance(got, Exception) else repr(got)[:120]}, appended was {describe(want)}')
+                            break
                 if isinstance(expected, Partial):
                     res.count('mon.failing_appends')
                     if raised is None and 'model' in monitors:
